@@ -35,6 +35,8 @@ def items_for(ms):
         # followed by a commented-out statement
         'let a = "see ' + name + '!("; let b = "x";', 'let r = r#"' + S + '"#;', 'let r = r##"a "# ' + S + ' "##;',
         'let g = "src/*"; let h = "' + name + '!(\\"x\\") */";', 'let u = "http://h"; /* ' + S + ' */',
+        # a double quote as a character literal in code, the next double quote inside a comment
+        "let c = '\"';\n// '\"' => " + S + "\n", "let c = b'\"'; /* \" */ // " + S + "\n",
     ]
     # a module path of several segments: every proper suffix and every proper prefix of it is a different path
     segs = mod.split("::")
